@@ -19,6 +19,10 @@ type T struct {
 func NewT() *T {
 	t := &T{}
 	t.f = 1 // SITE-CTOR
+	t.f <<= 2 // SITE-CTOR-COMPOUND
+	t.s[0] = 3 // SITE-CTOR-INDEX
+	t.f-- // SITE-CTOR-INCDEC
+	t.f, t.s[1] = 4, 5 // SITE-CTOR-PARALLEL
 	return t
 }
 
@@ -73,6 +77,12 @@ func ZZC01Basic() {
 	file := "/zz/zzmod/d/d.go"
 	exp := []Expect{
 		{file, nd.LineOf(c01SrcD, "SITE-CTOR"), "IMM01", nd.And(imm, nd.Not(nd.HasPrefix(ctor, " @constructor NewT")))},
+		// every write form has its own exemption test: all of them inside the constructor
+		{file, nd.LineOf(c01SrcD, "SITE-CTOR-COMPOUND"), "IMM02", nd.And(imm, nd.Not(nd.HasPrefix(ctor, " @constructor NewT")))},
+		{file, nd.LineOf(c01SrcD, "SITE-CTOR-INDEX"), "IMM04", nd.And(imm, nd.Not(nd.HasPrefix(ctor, " @constructor NewT")))},
+		{file, nd.LineOf(c01SrcD, "SITE-CTOR-INCDEC"), "IMM03", nd.And(imm, nd.Not(nd.HasPrefix(ctor, " @constructor NewT")))},
+		{file, nd.LineOf(c01SrcD, "SITE-CTOR-PARALLEL"), "IMM01", nd.And(imm, nd.Not(nd.HasPrefix(ctor, " @constructor NewT")))},
+		{file, nd.LineOf(c01SrcD, "SITE-CTOR-PARALLEL"), "IMM04", nd.And(imm, nd.Not(nd.HasPrefix(ctor, " @constructor NewT")))},
 		{file, nd.LineOf(c01SrcD, "SITE-ASSIGN"), "IMM01", imm},
 		{file, nd.LineOf(c01SrcD, "SITE-COMPOUND"), "IMM02", imm},
 		{file, nd.LineOf(c01SrcD, "SITE-MUTABLE"), "IMM01", nd.And(imm, nd.Not(nd.HasPrefix(mut, " @mutable")))},
@@ -312,4 +322,100 @@ func ZZC01Shadow() {
 	CheckExact(kept, []Expect{
 		{"/zz/zzmod/d/d.go", nd.LineOf(c01SrcShadow, "SITE-RECEIVER"), "IMM01", imm},
 	}, "C01 receiver shadowing")
+}
+
+const c01SrcEdge = `package d
+
+//«annT»
+type T struct {
+	N  int
+	Xs []int
+	//«mutAB»
+	A, B int
+}
+
+//«annI»
+type I int
+
+type Outer struct {
+	T
+	k int
+}
+
+type OuterP struct {
+	*T
+}
+
+func (i *I) Add() {
+	*i += 1 // E-RECV-COMPOUND
+	(*i)++ // E-RECV-PAREN-INC
+	(*i) = 3 // E-RECV-PAREN-SET
+	*(i) = 4 // E-RECV-INNER-PAREN
+}
+
+func Edge(p *T, o *Outer, op OuterP) {
+	(p.N) = 1 // E-PAREN-ASSIGN
+	(p.Xs)[0] = 1 // E-PAREN-INDEX
+	(p.N)++ // E-PAREN-INC
+	(p.N) += 2 // E-PAREN-COMPOUND
+	(p).N = 3 // E-PAREN-BASE
+	(*p).N = 3 // E-DEREF-BASE
+	o.N = 4 // E-PROMOTED
+	o.T.N = 5 // E-EXPLICIT
+	o.Xs[0] = 6 // E-PROMOTED-INDEX
+	o.N++ // E-PROMOTED-INC
+	o.N -= 1 // E-PROMOTED-COMPOUND
+	op.N = 7 // E-PROMOTED-PTR
+	o.k = 8 // E-OUTER-OWN
+	p.A = 9 // E-MUT-FIRST-NAME
+	p.B = 10 // E-MUT-SECOND-NAME
+	p.B++ // E-MUT-SECOND-INC
+}
+
+func Local() int {
+	type T struct{ N int }
+	var v T
+	v.N = 1 // E-LOCAL-ASSIGN
+	v.N++ // E-LOCAL-INC
+	v.N += 2 // E-LOCAL-COMPOUND
+	return v.N
+}
+`
+
+// ZZC01Edge: parenthesised write targets, compound assignment through the pointer receiver, fields promoted through an
+// embedded @immutable struct (value and pointer embedding), and a function-local type that shares the annotated type's name.
+func ZZC01Edge() {
+	annT := nd.EnumPad("annT", " @immutable", " plain")
+	annI := nd.EnumPad("annI", " @immutable", " plain")
+	mutAB := nd.EnumPad("mutAB", " @mutable", " plain")
+	holes := []nd.Hole{{"annT", annT}, {"annI", annI}, {"mutAB", mutAB}}
+	prog := nd.LoadProgram([]nd.File{{Pkg: "zzmod/d", Name: "d.go", Src: c01SrcEdge}}, holes)
+	res := Analyze(prog, config.Default(), "zzmod/d", Facts{}, "imm")
+	immT := nd.HasPrefix(annT, " @immutable")
+	immI := nd.HasPrefix(annI, " @immutable")
+	f := "/zz/zzmod/d/d.go"
+	src := c01SrcEdge
+	CheckExact(res.Diags, []Expect{
+		{f, nd.LineOf(src, "E-RECV-COMPOUND"), "IMM02", immI},
+		{f, nd.LineOf(src, "E-RECV-PAREN-INC"), "IMM03", immI},
+		{f, nd.LineOf(src, "E-RECV-PAREN-SET"), "IMM01", immI},
+		{f, nd.LineOf(src, "E-RECV-INNER-PAREN"), "IMM01", immI},
+		{f, nd.LineOf(src, "E-PAREN-ASSIGN"), "IMM01", immT},
+		{f, nd.LineOf(src, "E-PAREN-INDEX"), "IMM04", immT},
+		{f, nd.LineOf(src, "E-PAREN-INC"), "IMM03", immT},
+		{f, nd.LineOf(src, "E-PAREN-COMPOUND"), "IMM02", immT},
+		{f, nd.LineOf(src, "E-PAREN-BASE"), "IMM01", immT},
+		{f, nd.LineOf(src, "E-DEREF-BASE"), "IMM01", immT},
+		{f, nd.LineOf(src, "E-PROMOTED"), "IMM01", immT},
+		{f, nd.LineOf(src, "E-EXPLICIT"), "IMM01", immT},
+		{f, nd.LineOf(src, "E-PROMOTED-INDEX"), "IMM04", immT},
+		{f, nd.LineOf(src, "E-PROMOTED-INC"), "IMM03", immT},
+		{f, nd.LineOf(src, "E-PROMOTED-COMPOUND"), "IMM02", immT},
+		{f, nd.LineOf(src, "E-PROMOTED-PTR"), "IMM01", immT},
+		// one @mutable doc above a field declaration with several names covers every name
+		{f, nd.LineOf(src, "E-MUT-FIRST-NAME"), "IMM01", nd.And(immT, nd.Not(nd.HasPrefix(mutAB, " @mutable")))},
+		{f, nd.LineOf(src, "E-MUT-SECOND-NAME"), "IMM01", nd.And(immT, nd.Not(nd.HasPrefix(mutAB, " @mutable")))},
+		{f, nd.LineOf(src, "E-MUT-SECOND-INC"), "IMM03", nd.And(immT, nd.Not(nd.HasPrefix(mutAB, " @mutable")))},
+		// E-OUTER-OWN, E-LOCAL-*: nothing
+	}, "C01 edge forms")
 }
